@@ -501,4 +501,558 @@ theorem durR_open (C : Crypto) (bs : Array Bytes) (m : Nat) (held : Nat → Bool
       by rw [hd1t]; exact hg.extra.fileRef, hg.extra.unflRef, by rw [hd1t]; exact hg.extra.rootsStored⟩
   · rw [← hpk]; exact hg.keys.1
 
+/-! ### the replay over stores that are ahead of the header -/
+
+theorem bitRun_dirty (f : File) : ∀ (es : List Entry) (c : Nat) (b : Bitfield),
+    (∀ i, b.get i ≠ (Bitfield.ofFile f).get i → i / Spec.pageBits ∈ b.dirty) →
+    ∀ i, (bitRun es (c, b)).2.get i ≠ (Bitfield.ofFile f).get i → i / Spec.pageBits ∈ (bitRun es (c, b)).2.dirty := by
+  intro es
+  induction es with
+  | nil => intro c b h; exact h
+  | cons e r ih =>
+    intro c b h
+    simp only [bitRun]
+    apply ih
+    unfold bitOf
+    cases e.bitfield with
+    | none => exact h
+    | some u => exact dirty_setRange b f u.start u.length (!u.drop) h
+
+/-- what the exact replay says about the bits: the live bits are the stored bits plus what the entries set -/
+theorem replays_bits (C : Crypto) (c : Core) (d : Disk) (hf : Header) (es : List Entry) (h : Replays C c d hf es) (hset : SetOnly es) (i : Nat) :
+    c.bitfield.get i = true ↔ (Bitfield.ofFile d.bitfield).get i = true ∨ ∃ e ∈ es, Touches e i := by
+  obtain ⟨T0, _, hrep⟩ := h
+  obtain ⟨b, hb1, hb2, _⟩ := hrep c.oplog
+  obtain ⟨_, _, _, _, _, r5⟩ := replay_ahead C d c.oplog es hf hf T0 _ (Bitfield.ofFile d.bitfield) _ _ _ (agreeExc_refl hf) hb1
+  rw [← hb2 i, r5]
+  exact bitRun_bits es hset _ _ i
+
+/-- **the replay tolerates stores that are ahead**: if the tree store gained reference nodes and the bitfield store
+    gained bits the live core holds, replaying the same entries over the same header gives the same header (hint
+    included), the same tree and the same bits -/
+theorem replays_ahead (C : Crypto) (bs : Array Bytes) (c : Core) (d d' : Disk) (hf : Header) (es : List Entry)
+    (h : Replays C c d hf es) (hx : Extra C bs c d hf es) (hfm : Core.FirstMissing c.bitfield c.header.contiguous)
+    (hT : ∀ T0, Tree.openTree hf.tree d.tree = .ok T0 → Tree.openTree hf.tree d'.tree = .ok T0) (hext : FileExt d.tree d'.tree)
+    (hA : ∀ i, (Bitfield.ofFile d.bitfield).get i = true → (Bitfield.ofFile d'.bitfield).get i = true)
+    (hB : ∀ i, (Bitfield.ofFile d'.bitfield).get i = true → c.bitfield.get i = true) :
+    Replays C c d' hf es := by
+  have hbits := replays_bits C c d hf es h hx.setOnly
+  obtain ⟨T0, hT0, hrep⟩ := h
+  obtain ⟨B0, ⟨g1a, g1b⟩, g2, g3⟩ := hx.ghost
+  refine ⟨T0, hT T0 hT0, fun ol => ?_⟩
+  obtain ⟨b, hb1, hb2, _⟩ := hrep ol
+  obtain ⟨h2', r1, r2, r3, _, _⟩ := replay_ahead C d ol es hf hf T0 _ (Bitfield.ofFile d'.bitfield) _ _ _ (agreeExc_refl hf) hb1
+  -- the bits of the new run are the live bits
+  have hnew : ∀ i, (bitRun es (hf.contiguous, Bitfield.ofFile d'.bitfield)).2.get i = c.bitfield.get i := by
+    intro i
+    have := bitRun_bits es hx.setOnly hf.contiguous (Bitfield.ofFile d'.bitfield) i
+    cases hc : c.bitfield.get i with
+    | true =>
+      apply this.mpr
+      rcases (hbits i).mp hc with h1 | h1
+      · exact Or.inl (hA i h1)
+      · exact Or.inr h1
+    | false =>
+      cases hn : (bitRun es (hf.contiguous, Bitfield.ofFile d'.bitfield)).2.get i with
+      | false => rfl
+      | true =>
+        exfalso
+        rcases this.mp hn with h1 | h1
+        · rw [hB i h1] at hc; cases hc
+        · rw [(hbits i).mpr (Or.inr h1)] at hc; cases hc
+  -- the hint of the new run is exact
+  have hex := bitRun_exact es hx.setOnly hf.contiguous (Bitfield.ofFile d'.bitfield)
+    (fun i hi => hA i (g2 i (g1a i hi)))
+    (fun hheld => by
+      rcases g3 _ (hB _ hheld) with h1 | ⟨e, he, ht⟩
+      · rw [g1b] at h1; cases h1
+      · exact ⟨e, he, Touches.trig ht⟩)
+  have hcont : h2'.contiguous = c.header.contiguous := by
+    rw [r3]
+    exact firstMissing_unique _ _ _ _ hnew hex hfm
+  have hh : h2' = c.header := (agreeExc_eq _ _ r2 hcont.symm).symm
+  refine ⟨_, ?_, hnew, ?_⟩
+  · rw [← hh]
+    exact replay_ext C d d' hext es _ _ r1
+  · exact bitRun_dirty d'.bitfield es _ _ (fun i hne => absurd rfl hne)
+
+/-! ### a tree store with some of the unflushed nodes written -/
+
+theorem node?_nonblank (t : Tree) (f : File) (i : Nat) (n : Node) (h : t.node? f i = some n) : n.blank = false := by
+  simp only [Tree.node?] at h
+  cases hu : t.unflushed[i]? with
+  | some x =>
+    rw [hu] at h
+    simp only at h
+    split at h
+    · cases h
+    · rename_i hb; cases h; simpa using hb
+  | none =>
+    rw [hu] at h
+    simp only at h
+    cases hr : f.read (i * Spec.nodeSize) Spec.nodeSize with
+    | none => rw [hr] at h; cases h
+    | some bytes =>
+      rw [hr] at h
+      simp only at h
+      split at h
+      · cases h
+      · rename_i hb; cases h; simpa using hb
+
+/-- slots no written node owns answer as before -/
+theorem writeSlots_other (L : List Node) (hw : ∀ n ∈ L, n.hash.length = 32) (hd : L.Pairwise (fun a b => a.index ≠ b.index))
+    (f : File) (hal : f.size % 40 = 0) (i : Nat) (hmiss : ∀ n ∈ L, n.index ≠ i) :
+    ({} : Tree).node? (writeSlots f L) i = ({} : Tree).node? f i := by
+  obtain ⟨_, r2⟩ := writeSlots_read L f hw hd
+  have hN : Spec.nodeSize = 40 := rfl
+  simp only [Tree.node?, Std.HashMap.getElem?_empty]
+  cases hr : f.read (i * Spec.nodeSize) Spec.nodeSize with
+  | some bytes => rw [r2 _ _ hmiss hr]
+  | none =>
+    simp only []
+    have hbeyond : f.size ≤ i * 40 := by
+      by_contra hlt
+      have hsz : i * 40 + 40 ≤ f.size := by omega
+      have : (f.read (i * Spec.nodeSize) Spec.nodeSize).isSome := by
+        rw [hN]
+        unfold File.read
+        simp [File.size] at hsz ⊢
+        omega
+      rw [hr] at this; cases this
+    have hz0 : ∀ k, k < 40 → f.byte (i * 40 + k) = 0 := fun k _ => byte_beyond f _ (by omega)
+    have hz := writeSlots_zero L hw f i hmiss hz0
+    cases hr2 : (writeSlots f L).read (i * Spec.nodeSize) Spec.nodeSize with
+    | none => rfl
+    | some bytes =>
+      simp only []
+      have hl := File.read_length _ _ _ _ hr2
+      have hb : (nodeOfBytes i bytes).blank = true := by
+        apply blank_of_zero i bytes (by rw [hl, hN])
+        intro k hk
+        have := File.read_byte _ _ _ _ hr2 k (by rw [hN]; exact hk)
+        rw [hN] at this
+        rw [this]; exact hz k hk
+      simp [hb]
+
+/-- a written slot answers with the written node -/
+theorem writeSlots_hit (L : List Node) (hw : ∀ n ∈ L, n.hash.length = 32) (hl : ∀ n ∈ L, n.length < 2 ^ 64)
+    (hd : L.Pairwise (fun a b => a.index ≠ b.index)) (f : File) (n : Node) (hn : n ∈ L) :
+    ({} : Tree).node? (writeSlots f L) n.index = if n.blank then none else some n := by
+  obtain ⟨r1, _⟩ := writeSlots_read L f hw hd
+  simp only [Tree.node?, Std.HashMap.getElem?_empty, r1 n hn, nodeOfBytes_nodeBytes n (hl n hn)]
+
+/-- the nodes a cut `flush_nodes` has written: some of the unflushed ones -/
+structure Written (t : Tree) (L : List Node) : Prop where
+  mem : ∀ n ∈ L, t.unflushed[n.index]? = some n
+  distinct : L.Pairwise (fun a b => a.index ≠ b.index)
+
+theorem written_take (t : Tree) (L : List Node) (k : Nat) (h : Written t L) : Written t (L.take k) :=
+  ⟨fun n hn => h.mem n (List.mem_of_mem_take hn), h.distinct.sublist (List.take_sublist k L)⟩
+
+/-- the live tree's lookups do not notice the written nodes: it still has them in its unflushed map -/
+theorem ghost_lookup (t : Tree) (hwf : MapWF t.unflushed) (L : List Node) (hW : Written t L) (f : File) (hal : f.size % 40 = 0) (i : Nat) :
+    t.node? (writeSlots f L) i = t.node? f i := by
+  rw [node?_split t (writeSlots f L) i, node?_split t f i]
+  cases hu : t.unflushed[i]? with
+  | some x => rfl
+  | none =>
+    simp only
+    apply writeSlots_other L (fun n hn => (hwf _ _ (hW.mem n hn)).2.1) hW.distinct f hal i
+    intro n hn e
+    have := hW.mem n hn
+    rw [e, hu] at this; cases this
+
+theorem written_aligned (t : Tree) (hwf : MapWF t.unflushed) (L : List Node) (hW : Written t L) (f : File) (hal : f.size % 40 = 0) :
+    (writeSlots f L).size % 40 = 0 :=
+  writeSlots_aligned L (fun n hn => (hwf _ _ (hW.mem n hn)).2.1) f hal
+
+/-- what the file lookups see after the writes: a written node, or what was there -/
+theorem written_file (t : Tree) (hwf : MapWF t.unflushed) (L : List Node) (hW : Written t L) (f : File) (hal : f.size % 40 = 0) (i : Nat) :
+    (∃ n ∈ L, n.index = i ∧ ({} : Tree).node? (writeSlots f L) i = if n.blank then none else some n)
+      ∨ ((∀ n ∈ L, n.index ≠ i) ∧ ({} : Tree).node? (writeSlots f L) i = ({} : Tree).node? f i) := by
+  by_cases hex : ∃ n ∈ L, n.index = i
+  · obtain ⟨n, hn, rfl⟩ := hex
+    exact Or.inl ⟨n, hn, rfl, writeSlots_hit L (fun x hx => (hwf _ _ (hW.mem x hx)).2.1) (fun x hx => (hwf _ _ (hW.mem x hx)).2.2) hW.distinct f n hn⟩
+  · have hmiss : ∀ n ∈ L, n.index ≠ i := fun n hn e => hex ⟨n, hn, e⟩
+    exact Or.inr ⟨hmiss, writeSlots_other L (fun n hn => (hwf _ _ (hW.mem n hn)).2.1) hW.distinct f hal i hmiss⟩
+
+/-- the written nodes are reference nodes, so is everything in the new store, and nothing that was there is lost -/
+theorem written_ext (C : Crypto) (bs : Array Bytes) (t : Tree) (hwf : MapWF t.unflushed) (L : List Node) (hW : Written t L)
+    (f : File) (hal : f.size % 40 = 0)
+    (hfile : ∀ i n, ({} : Tree).node? f i = some n → ∃ dd o, i = Flat.index dd o ∧ n = nodeAt C bs dd o)
+    (hunfl : ∀ i n, t.unflushed[i]? = some n → ∃ dd o, i = Flat.index dd o ∧ n = nodeAt C bs dd o) :
+    FileExt f (writeSlots f L)
+      ∧ (∀ i n, ({} : Tree).node? (writeSlots f L) i = some n → ∃ dd o, i = Flat.index dd o ∧ n = nodeAt C bs dd o) := by
+  constructor
+  · intro i n0 h0
+    rcases written_file t hwf L hW f hal i with ⟨n, hn, hi, hlook⟩ | ⟨_, hlook⟩
+    · obtain ⟨dd, o, e1, e2⟩ := hfile i n0 h0
+      obtain ⟨dd', o', e1', e2'⟩ := hunfl n.index n (hW.mem n hn)
+      rw [hi, e1] at e1'
+      obtain ⟨rfl, rfl⟩ := index_inj _ _ _ _ e1'
+      have hnn : n = n0 := by rw [e2, e2']
+      rw [hlook, hnn, node?_nonblank _ _ _ _ h0]
+      rfl
+    · rw [hlook]; exact h0
+  · intro i n hn'
+    rcases written_file t hwf L hW f hal i with ⟨x, hx, hi, hlook⟩ | ⟨_, hlook⟩
+    · rw [hlook] at hn'
+      split at hn'
+      · cases hn'
+      · have hxn : x = n := Option.some.inj hn'
+        rw [← hi, ← hxn]
+        exact hunfl x.index x (hW.mem x hx)
+    · rw [hlook] at hn'
+      exact hfile i n hn'
+
+/-! ### moving the invariants between disks -/
+
+theorem reprAt_disk (C : Crypto) (bs : Array Bytes) (m : Nat) (c : Core) (d d' : Disk) (held : Nat → Bool) (h : RepRAt C bs m c d held)
+    (hn : ∀ i, c.tree.node? d'.tree i = c.tree.node? d.tree i) (hal : d'.tree.size % 40 = 0) (hdata : d'.data = d.data) :
+    RepRAt C bs m c d' held :=
+  ⟨h.le, closedAt_congr C bs m c.tree c.tree d.tree d'.tree h.closed hn rfl, h.roots, h.bytes, h.mapwf, hal, h.bits, h.heldLt,
+    fun i hi => by rw [hn]; exact h.leaf i hi, by rw [hdata]; exact h.data, h.contig, h.small⟩
+
+theorem replays_congr (C : Crypto) (c : Core) (d d' : Disk) (hf : Header) (es : List Entry) (h : Replays C c d hf es)
+    (ht : d'.tree = d.tree) (hb : d'.bitfield = d.bitfield) : Replays C c d' hf es := by
+  obtain ⟨T0, hT0, hrep⟩ := h
+  refine ⟨T0, by rw [ht]; exact hT0, fun ol => ?_⟩
+  obtain ⟨b, e1, e2, e3⟩ := hrep ol
+  exact ⟨b, by rw [replay_congr C d d' ht, hb]; exact e1, e2, by rw [hb]; exact e3⟩
+
+theorem extra_congr (C : Crypto) (bs : Array Bytes) (c : Core) (d d' : Disk) (hf : Header) (es : List Entry) (h : Extra C bs c d hf es)
+    (ht : d'.tree = d.tree) (hb : d'.bitfield = d.bitfield) : Extra C bs c d' hf es :=
+  ⟨h.setOnly, by rw [hb]; exact h.ghost, by rw [ht]; exact h.fileRef, h.unflRef, by rw [ht]; exact h.rootsStored⟩
+
+/-- same ghost core, same tree and bitfield stores, another oplog image and data store -/
+theorem durG_of (C : Crypto) (bs : Array Bytes) (m : Nat) (held : Nat → Bool) (c : Core) (hf : Header) (es : List Entry) (d d' : Disk)
+    (hrep : RepRAt C bs m c d' held) (hp : PersistR C c d hf es) (hx : Extra C bs c d hf es) (hsize : bs.size < 2 ^ 62)
+    (ht : d'.tree = d.tree) (hb : d'.bitfield = d.bitfield) (hop : OpImage d'.oplog hf es) :
+    DurG C bs m held d' c hf es :=
+  ⟨hrep, hop, replays_congr C c d d' hf es hp.replay ht hb, by rw [hb]; exact hp.bfSize, by rw [hb]; exact hp.dirty, hp.shape, hp.hdrLen,
+    hp.hdrFork, hp.hdrSig, hp.hdrSigLen, hp.keys, extra_congr C bs c d d' hf es hx ht hb, hsize⟩
+
+theorem load_eq (f f' : File) : ∀ (l : List Nat), (∀ i ∈ l, ∃ n, ({} : Tree).node? f i = some n ∧ ({} : Tree).node? f' i = some n) →
+    Tree.openTree.load f l = Tree.openTree.load f' l := by
+  intro l
+  induction l with
+  | nil => intro _; rfl
+  | cons i is ih =>
+    intro h
+    obtain ⟨n, h1, h2⟩ := h i (by simp)
+    obtain ⟨b1, r1, n1⟩ := Reopen.node?_empty f i n h1
+    obtain ⟨b2, r2, n2⟩ := Reopen.node?_empty f' i n h2
+    simp only [Tree.openTree.load, r1, r2, n1, n2, ih (fun j hj => h j (by simp [hj]))]
+
+theorem openTree_ext (C : Crypto) (bs : Array Bytes) (ht : HeaderTree) (f f' : File) (hext : FileExt f f') (m0 : Nat) (hlen : ht.length = m0)
+    (hm : m0 < 2 ^ 64) (hR : ∀ p ∈ rootsStack m0, ({} : Tree).node? f (Flat.index p.1 p.2) = some (nodeAt C bs p.1 p.2)) :
+    Tree.openTree ht f' = Tree.openTree ht f := by
+  have hidx : fullRoots (ht.length * 2) = (rootsStack m0).reverse.map fun p => Flat.index p.1 p.2 := by
+    rw [hlen, Nat.mul_comm]; exact FullRoots.fullRoots_eq m0 hm
+  have := load_eq f f' (fullRoots (ht.length * 2)) (fun i hi => by
+    rw [hidx] at hi
+    obtain ⟨p, hp, rfl⟩ := List.mem_map.mp hi
+    exact ⟨_, hR p (List.mem_reverse.mp hp), hext _ _ (hR p (List.mem_reverse.mp hp))⟩)
+  simp only [Tree.openTree, this]
+
+/-! ### the periodic flush, cut anywhere -/
+
+/-- the stores after some dirty pages and some unflushed nodes of the live core have been written -/
+theorem durG_ahead (C : Crypto) (bs : Array Bytes) (m : Nat) (held : Nat → Bool) (c : Core) (hf : Header) (es : List Entry) (d : Disk)
+    (hr : RepRAt C bs m c d held) (hp : PersistR C c d hf es) (hx : Extra C bs c d hf es) (hsize : bs.size < 2 ^ 62)
+    (ps : List Nat) (L : List Node) (hW : Written c.tree L) :
+    DurG C bs m held { d with bitfield := writePages c.bitfield d.bitfield ps, tree := writeSlots d.tree L } c hf es := by
+  obtain ⟨w1, w2⟩ := writePages_bits c.bitfield d.bitfield hp.bfSize ps
+  have hbits := replays_bits C c d hf es hp.replay hx.setOnly
+  obtain ⟨hext, hfileRef⟩ := written_ext C bs c.tree hr.mapwf L hW d.tree hr.aligned hx.fileRef hx.unflRef
+  have hA : ∀ i, (Bitfield.ofFile d.bitfield).get i = true → (Bitfield.ofFile (writePages c.bitfield d.bitfield ps)).get i = true := by
+    intro i hi
+    rw [w1 i]
+    split
+    · exact (hbits i).mpr (Or.inl hi)
+    · exact hi
+  have hB : ∀ i, (Bitfield.ofFile (writePages c.bitfield d.bitfield ps)).get i = true → c.bitfield.get i = true := by
+    intro i hi
+    rw [w1 i] at hi
+    split at hi
+    · exact hi
+    · exact (hbits i).mpr (Or.inl hi)
+  obtain ⟨m0, hm0, hm64, hroots0⟩ := hx.rootsStored
+  obtain ⟨B0, g1, g2, g3⟩ := hx.ghost
+  refine ⟨?_, opimage_of_inv c.oplog d.oplog hf es hp.oplog, ?_, w2, ?_, hp.shape, hp.hdrLen, hp.hdrFork, hp.hdrSig, hp.hdrSigLen, hp.keys, ?_, hsize⟩
+  · exact reprAt_disk C bs m c d _ held hr (fun i => ghost_lookup c.tree hr.mapwf L hW d.tree hr.aligned i)
+      (written_aligned c.tree hr.mapwf L hW d.tree hr.aligned) rfl
+  · exact replays_ahead C bs c d _ hf es hp.replay hx hr.contig
+      (fun T0 hT0 => by
+        show Tree.openTree hf.tree (writeSlots d.tree L) = _
+        rw [openTree_ext C bs hf.tree d.tree _ hext m0 hm0 hm64 hroots0]; exact hT0)
+      hext hA hB
+  · intro i hne
+    apply hp.dirty i
+    intro heq
+    apply hne
+    show _ = (Bitfield.ofFile (writePages c.bitfield d.bitfield ps)).get i
+    rw [w1 i]
+    split
+    · rfl
+    · exact heq
+  · exact ⟨hx.setOnly, ⟨B0, g1, fun i hi => hA i (g2 i hi), g3⟩, hfileRef, hx.unflRef,
+      ⟨m0, hm0, hm64, fun p hp' => hext _ _ (hroots0 p hp')⟩⟩
+
+/-- **a periodic flush cut at any point leaves a crash image of the same replica state** -/
+theorem crash_flushR (C : Crypto) (bs : Array Bytes) (m : Nat) (c : Core) (d : Disk) (held : Nat → Bool) (hf : Header) (es : List Entry)
+    (hr : RepRAt C bs m c d held) (hp : PersistR C c d hf es) (hx : Extra C bs c d hf es) (hsize : bs.size < 2 ^ 62) (k : Nat) :
+    DurR C bs m held (d.applyAll (c.maybeFlush.2.take k)) c.publicKey c.tree.fork := by
+  have hfull := persist_maybeFlush C bs m c d held hf es hr hp hx
+  have hrepf := maybeFlush_reprAt C bs m c d held hr
+  have hpkf : c.maybeFlush.1.publicKey = c.publicKey ∧ c.maybeFlush.1.tree.fork = c.tree.fork := by
+    rw [LiveRefine.maybeFlush_eq]; split <;> exact ⟨rfl, rfl⟩
+  rw [LiveRefine.maybeFlush_eq] at hfull hrepf ⊢
+  split
+  · rename_i hcond
+    simp only [hcond, ite_true] at hfull hrepf
+    simp only [Core.flushAll] at hfull hrepf ⊢
+    have hj1 := Journal.bitfieldFlush_store c.bitfield
+    have hj2 := Journal.treeFlush_store c.tree
+    have hj3 := Journal.oplogFlush_store c.oplog c.header false
+    generalize hP : c.bitfield.flush.2 = P at hj1 hfull hrepf
+    generalize hT : c.tree.flush.2 = T at hj2 hfull hrepf
+    generalize hO : (Oplog.flush c.oplog c.header false).2 = O at hj3 hfull hrepf
+    have hPdef : P = c.bitfield.dirty.map fun p => SOp.write .bitfield (p * Spec.pageBytes) (c.bitfield.pageBytes p) := by
+      rw [← hP]; rfl
+    have hTdef : T = (Crash.flushList c.tree).map fun n => SOp.write .tree (n.index * Spec.nodeSize) (nodeBytes n) := by
+      rw [← hT]; exact Crash.flush_journal c.tree
+    have hWall : Written c.tree (Crash.flushList c.tree) := ⟨Crash.flushList_mem c.tree hr.mapwf, Crash.flushList_distinct c.tree hr.mapwf⟩
+    have hdP : ∀ ps : List Nat, (d.applyAll (ps.map fun p => SOp.write .bitfield (p * Spec.pageBytes) (c.bitfield.pageBytes p)))
+        = { d with bitfield := writePages c.bitfield d.bitfield ps } := by
+      intro ps
+      have hs : ∀ op ∈ (ps.map fun p => SOp.write .bitfield (p * Spec.pageBytes) (c.bitfield.pageBytes p)), op.store = .bitfield := by
+        intro op hop; obtain ⟨p, _, rfl⟩ := List.mem_map.mp hop; rfl
+      have e1 := Persist.applyAll_bitfield_writes c.bitfield d ps
+      have e2 := Journal.applyAll_other d _ .tree (fun op hop => by rw [hs op hop]; decide)
+      have e3 := Journal.applyAll_other d _ .data (fun op hop => by rw [hs op hop]; decide)
+      have e4 := Journal.applyAll_other d _ .oplog (fun op hop => by rw [hs op hop]; decide)
+      simp only [Disk.get] at e2 e3 e4
+      generalize d.applyAll (ps.map fun p => SOp.write .bitfield (p * Spec.pageBytes) (c.bitfield.pageBytes p)) = dd at *
+      obtain ⟨t1, da1, b1, o1⟩ := dd
+      obtain ⟨t0, da0, b0, o0⟩ := d
+      simp only at e1 e2 e3 e4
+      rw [e1, e2, e3, e4]
+    rcases Crash.take_append_cases (P ++ T) O k with ⟨hk1, e1⟩ | ⟨hk1, e1⟩
+    · rw [e1]
+      rcases Crash.take_append_cases P T k with ⟨hk2, e2⟩ | ⟨hk2, e2⟩
+      · -- inside the page writes
+        rw [e2, hPdef, ← List.map_take, hdP]
+        have := durG_ahead C bs m held c hf es d hr hp hx hsize (c.bitfield.dirty.take k) [] ⟨(fun n hn => by cases hn), List.Pairwise.nil⟩
+        exact ⟨c, hf, es, this, rfl, rfl⟩
+      · -- inside the node writes
+        rw [e2, Journal.applyAll_append, hPdef, hdP, hTdef, ← List.map_take, applyAll_tree_writes]
+        have := durG_ahead C bs m held c hf es d hr hp hx hsize c.bitfield.dirty ((Crash.flushList c.tree).take (k - c.bitfield.dirty.length))
+          (written_take c.tree _ _ hWall)
+        simp only [List.length_map]
+        exact ⟨c, hf, es, this, rfl, rfl⟩
+    · -- all pages and nodes written
+      rw [e1, Journal.applyAll_append]
+      rw [Journal.applyAll_append d (P ++ T) O] at hrepf hfull
+      obtain ⟨hf', es', hp', hx'⟩ := hfull
+      by_cases hk2 : 2 ≤ k - (P ++ T).length
+      · -- header written and entries truncated: the flush is complete
+        have hO2 : O.length = 2 := by rw [← hO]; simp [Oplog.flush, Oplog.insertHeader]
+        rw [List.take_of_length_le (by omega)]
+        have := rp_durR C bs m _ _ held ⟨hrepf, ⟨hf', es', hp', hx'⟩, hsize⟩
+        simp only [] at this
+        exact this
+      · -- the header is written, the entry region not yet truncated
+        have hk3 : k - (P ++ T).length = 1 := by omega
+        rw [hk3]
+        have hOs : ∀ op ∈ O.take 1, op.store = .oplog := fun op hop => hj3 op (List.mem_of_mem_take hop)
+        generalize hd2 : d.applyAll (P ++ T) = d2 at *
+        have hd3tree : (d2.applyAll (O.take 1)).tree = (d2.applyAll O).tree := by
+          rw [LiveRefine.tree_of_applyAll _ _ (fun op hop => by rw [hOs op hop]; decide),
+            LiveRefine.tree_of_applyAll _ _ (fun op hop => by rw [hj3 op hop]; decide)]
+        have hd3data : (d2.applyAll (O.take 1)).data = (d2.applyAll O).data := by
+          rw [LiveRefine.data_of_applyAll _ _ (fun op hop => by rw [hOs op hop]; decide),
+            LiveRefine.data_of_applyAll _ _ (fun op hop => by rw [hj3 op hop]; decide)]
+        have hd3bf : (d2.applyAll (O.take 1)).bitfield = (d2.applyAll O).bitfield := by
+          have a1 := Journal.applyAll_other d2 (O.take 1) .bitfield (fun op hop => by rw [hOs op hop]; decide)
+          have a2 := Journal.applyAll_other d2 O .bitfield (fun op hop => by rw [hj3 op hop]; decide)
+          simp only [Disk.get] at a1 a2
+          rw [a1, a2]
+        have hd2op : d2.oplog = d.oplog := by
+          rw [← hd2]
+          have := Journal.applyAll_other d (P ++ T) .oplog (fun op hop => by
+            rcases List.mem_append.mp hop with h | h
+            · rw [hj1 op h]; decide
+            · rw [hj2 op h]; decide)
+          simpa [Disk.get] using this
+        have hd3op : (d2.applyAll (O.take 1)).oplog = (O.take 1).foldl (fun g op => op.onFile g) d.oplog := by
+          have := Persist.applyAll_last_only d2 [] (O.take 1) .oplog (fun op hop => by cases hop) hOs
+          simp only [List.nil_append, Disk.get] at this
+          rw [this, hd2op]
+        -- which header and entries the complete flush ends with
+        have hhf' : hf' = c.header ∧ es' = [] := by
+          obtain ⟨o1, h1, _, _⟩ := opinv_open _ _ hf' es' hp'.oplog
+          have hofile : (d2.applyAll O).oplog = O.foldl (fun g op => op.onFile g) d.oplog := by
+            have := Persist.applyAll_last_only d2 [] O .oplog (fun op hop => by cases hop) hj3
+            simp only [List.nil_append, Disk.get] at this
+            rw [this, hd2op]
+          have hinv := opinv_flush c.oplog d.oplog hf es c.header hp.oplog (headerOK_of_shape _ hp.shape)
+          rw [hO] at hinv
+          rw [← hofile] at hinv
+          obtain ⟨o2, h2, _, _⟩ := opinv_open _ _ c.header [] hinv
+          rw [h1] at h2
+          have := Except.ok.inj h2
+          simp only [OpenOutcome.mk.injEq] at this
+          exact ⟨this.2.1, this.2.2.2⟩
+        obtain ⟨rfl, rfl⟩ := hhf'
+        have hg : DurG C bs m held (d2.applyAll (O.take 1)) (({ c with skipFlush := Spec.flushEvery - 1 } : Core).flushAll false).1 c.header [] := by
+          simp only [Core.flushAll, hP, hT, hO]
+          refine durG_of C bs m held _ c.header [] (d2.applyAll O) _ ?_ hp' hx' hsize hd3tree hd3bf ?_
+          · exact reprAt_disk C bs m _ (d2.applyAll O) _ held hrepf (fun i => by rw [hd3tree]) (by rw [hd3tree]; exact hrepf.aligned) hd3data
+          · exact Or.inr ⟨c.oplog, d.oplog, hf, es, false, hp.oplog, headerOK_of_shape _ hp.shape, rfl, by rw [hd3op, ← hO]; simp [Oplog.flush]⟩
+        simp only [Core.flushAll, hP, hT, hO] at hg
+        exact ⟨_, c.header, [], hg, rfl, rfl⟩
+  · -- no flush
+    simp only [List.take_nil, Disk.applyAll, List.foldl_nil]
+    have := rp_durR C bs m c d held ⟨hr, ⟨hf, es, hp, hx⟩, hsize⟩
+    exact this
+
+/-! ### an exchange step, cut anywhere -/
+
+/-- **every prefix of the storage operations of an exchange step leaves a crash image of the state before the step
+    or of the state after it** -/
+theorem crash_ok (C : Crypto) (bs : Array Bytes) (m m' : Nat) (c c1 : Core) (d : Disk) (held held' : Nat → Bool) (st : Step Bool)
+    (e : Entry) (j0 : List SOp) (h : RP C bs m c d held) (hok : StepOK C bs m m' c c1 d held held' st e j0) (k : Nat) :
+    DurR C bs m held (d.applyAll (st.journal.take k)) c.publicKey c.tree.fork
+      ∨ DurR C bs m' held' (d.applyAll (st.journal.take k)) c.publicKey c.tree.fork := by
+  have hmid := ok_mid C bs m m' c c1 d held held' st e j0 h hok
+  obtain ⟨hf, es, hp, hx⟩ := h.per
+  rw [hok.shape.2]
+  rcases Crash.take_append_cases (j0 ++ (Oplog.appendEntry c.oplog e).2) c1.maybeFlush.2 k with ⟨hk1, e1⟩ | ⟨hk1, e1⟩
+  · rw [e1]
+    rcases Crash.take_append_cases j0 (Oplog.appendEntry c.oplog e).2 k with ⟨hk2, e2⟩ | ⟨hk2, e2⟩
+    · -- inside the data-store operations: the state before
+      left
+      rw [e2]
+      have hdat : ∀ op ∈ j0.take k, op.store = .data := fun op hop => hok.j0data op (List.mem_of_mem_take hop)
+      have ht : (d.applyAll (j0.take k)).tree = d.tree := LiveRefine.tree_of_applyAll _ _ (fun op hop => by rw [hdat op hop]; decide)
+      have hb : (d.applyAll (j0.take k)).bitfield = d.bitfield := by
+        have := Journal.applyAll_other d (j0.take k) .bitfield (fun op hop => by rw [hdat op hop]; decide)
+        simpa [Disk.get] using this
+      have ho : (d.applyAll (j0.take k)).oplog = d.oplog := by
+        have := Journal.applyAll_other d (j0.take k) .oplog (fun op hop => by rw [hdat op hop]; decide)
+        simpa [Disk.get] using this
+      exact ⟨c, hf, es, durG_of C bs m held c hf es d _ (hok.pre k) hp hx h.size ht hb (by rw [ho]; exact opimage_of_inv c.oplog d.oplog hf es hp.oplog), rfl, rfl⟩
+    · -- the entry is written: the state after, before its flush
+      right
+      have hE : (Oplog.appendEntry c.oplog e).2.length = 1 := rfl
+      rw [e2, List.take_of_length_le (by omega)]
+      have := rp_durR C bs m' c1 _ held' hmid
+      rw [hok.keep.1, hok.keep.2] at this
+      exact this
+  · -- inside the periodic flush: the state after
+    right
+    rw [e1, Journal.applyAll_append]
+    obtain ⟨hf1, es1, hp1, hx1⟩ := hmid.per
+    have := crash_flushR C bs m' c1 _ held' hf1 es1 hmid.rep hp1 hx1 h.size (k - (j0 ++ (Oplog.appendEntry c.oplog e).2).length)
+    rw [hok.keep.1, hok.keep.2] at this
+    exact this
+
+/-- the three exchanges, cut anywhere, and the recovery -/
+theorem crash_recover (C : Crypto) (bs : Array Bytes) (m m' : Nat) (c c1 : Core) (d : Disk) (held held' : Nat → Bool) (st : Step Bool)
+    (e : Entry) (j0 : List SOp) (h : RP C bs m c d held) (hok : StepOK C bs m m' c c1 d held held' st e j0) (k : Nat) :
+    ∃ c' j, openCore C none (d.applyAll (st.journal.take k)) = .ok (c', j) ∧ c'.publicKey = c.publicKey ∧ c'.tree.fork = c.tree.fork
+      ∧ (RP C bs m c' ((d.applyAll (st.journal.take k)).applyAll j) held ∨ RP C bs m' c' ((d.applyAll (st.journal.take k)).applyAll j) held') := by
+  rcases crash_ok C bs m m' c c1 d held held' st e j0 h hok k with hd | hd
+  · obtain ⟨c', j, r1, r2, r3, r4⟩ := durR_open C bs m held _ _ _ hd
+    exact ⟨c', j, r1, r3, r4, Or.inl r2⟩
+  · obtain ⟨c', j, r1, r2, r3, r4⟩ := durR_open C bs m' held' _ _ _ hd
+    exact ⟨c', j, r1, r3, r4, Or.inr r2⟩
+
+/-! ### the exchanges of `HashReq.Act` -/
+
+/-- every honest act is a `StepOK` step -/
+theorem act_ok (C : Crypto) (hC : HashWF C) (hT : TreeWF C) (bs : Array Bytes) (m : Nat) (c : Core) (d : Disk) (held : Nat → Bool)
+    (h : RP C bs m c d held) (hm0 : 0 < m) (a : Act) (hok : OkActs C bs c.publicKey c.tree.fork m [a]) :
+    ∃ c1 e j0, StepOK C bs m (lenAfter m [a]) c c1 d held (fun j => held j || fetched [a] j) (c.verifyAndApply C d (actProof C bs c d a)) e j0 := by
+  have hlen : c.tree.length = m := h.rep.closed.sparse.length
+  cases a with
+  | grow n us sig =>
+    obtain ⟨o1, o2, o3, o4, o5, _⟩ := hok
+    obtain ⟨c1, e, j0, hk⟩ := grow_ok C hC hT bs m n c d held h hm0 o1 o2 us o3 sig o4 o5
+    have hact : actProof C bs c d (.grow n us sig) = honestGrowth C bs c.tree.fork m n us sig := by simp [actProof, hlen]
+    have hh : (fun j => held j || fetched [Act.grow n us sig] j) = held := by funext j; simp [fetched]
+    rw [hact, hh]
+    exact ⟨c1, e, j0, hk⟩
+  | fetch i =>
+    obtain ⟨o1, _⟩ := hok
+    obtain ⟨c1, e, j0, hk⟩ := block_ok C hC bs m c d held h i o1
+    have hh : (fun j => held j || fetched [Act.fetch i] j) = (fun j => held j || j == i) := by funext j; simp [fetched]
+    rw [hh]
+    exact ⟨c1, e, j0, hk⟩
+  | hash d0 o0 =>
+    obtain ⟨o1, _⟩ := hok
+    obtain ⟨c1, e, j0, hk⟩ := hash_ok C hC bs m c d held h d0 o0 o1
+    have hh : (fun j => held j || fetched [Act.hash d0 o0] j) = held := by funext j; simp [fetched]
+    rw [hh]
+    exact ⟨c1, e, j0, hk⟩
+
+/-- the replica states reachable from a state that satisfies the invariants by honest exchanges, close/reopen and
+    **crashes at any storage operation of an exchange followed by a reopen** -/
+inductive Reach (C : Crypto) (bs : Array Bytes) (pk : Bytes) (fork : Nat) : Core × Disk → Prop
+  | start (c : Core) (d : Disk) (m : Nat) (held : Nat → Bool) : RP C bs m c d held → 0 < m → c.publicKey = pk → c.tree.fork = fork →
+      Reach C bs pk fork (c, d)
+  | act (c : Core) (d : Disk) (a : Act) : Reach C bs pk fork (c, d) → OkActs C bs pk fork c.tree.length [a] →
+      Reach C bs pk fork ((c.verifyAndApply C d (actProof C bs c d a)).core, d.applyAll (c.verifyAndApply C d (actProof C bs c d a)).journal)
+  | reopen (c : Core) (d : Disk) (c' : Core) (j : List SOp) : Reach C bs pk fork (c, d) → openCore C none d = .ok (c', j) →
+      Reach C bs pk fork (c', d.applyAll j)
+  | crash (c : Core) (d : Disk) (a : Act) (k : Nat) (c' : Core) (j : List SOp) : Reach C bs pk fork (c, d) →
+      OkActs C bs pk fork c.tree.length [a] →
+      openCore C none (d.applyAll ((c.verifyAndApply C d (actProof C bs c d a)).journal.take k)) = .ok (c', j) →
+      Reach C bs pk fork (c', (d.applyAll ((c.verifyAndApply C d (actProof C bs c d a)).journal.take k)).applyAll j)
+
+/-- **every reachable state satisfies the replica invariant and the ghost invariant** -/
+theorem reach_rp (C : Crypto) (hC : HashWF C) (hT : TreeWF C) (bs : Array Bytes) (pk : Bytes) (fork : Nat) (s : Core × Disk)
+    (h : Reach C bs pk fork s) : ∃ m held, RP C bs m s.1 s.2 held ∧ 0 < m ∧ s.1.publicKey = pk ∧ s.1.tree.fork = fork := by
+  induction h with
+  | start c d m held hrp hm hpk hfk => exact ⟨m, held, hrp, hm, hpk, hfk⟩
+  | act c d a _ hok ih =>
+    obtain ⟨m, held, hrp, hm, hpk, hfk⟩ := ih
+    have hlen : c.tree.length = m := hrp.rep.closed.sparse.length
+    simp only at hpk hfk
+    rw [hlen, ← hpk, ← hfk] at hok
+    obtain ⟨c1, e, j0, hk⟩ := act_ok C hC hT bs m c d held hrp hm a hok
+    obtain ⟨_, r2, r3, r4⟩ := rp_of_ok C bs m _ c c1 d held _ _ e j0 hrp hk
+    refine ⟨_, _, r2, ?_, by rw [r3, hpk], by rw [r4, hfk]⟩
+    cases a with
+    | grow n us sig => simp only [lenAfter]; have := hok.1; omega
+    | fetch i => exact hm
+    | hash d0 o0 => exact hm
+  | reopen c d c' j _ hopen ih =>
+    obtain ⟨m, held, hrp, hm, hpk, hfk⟩ := ih
+    obtain ⟨c2, e1, e2, e3, e4⟩ := rp_reopen C bs m c d held hrp
+    rw [hopen] at e1
+    have := Except.ok.inj e1
+    simp only [Prod.mk.injEq] at this
+    obtain ⟨rfl, rfl⟩ := this
+    exact ⟨m, held, e2, hm, by rw [e3]; exact hpk, by rw [e4]; exact hfk⟩
+  | crash c d a k c' j _ hok hopen ih =>
+    obtain ⟨m, held, hrp, hm, hpk, hfk⟩ := ih
+    have hlen : c.tree.length = m := hrp.rep.closed.sparse.length
+    simp only at hpk hfk
+    rw [hlen, ← hpk, ← hfk] at hok
+    obtain ⟨c1, e, j0, hk⟩ := act_ok C hC hT bs m c d held hrp hm a hok
+    obtain ⟨c2, j2, r1, r2, r3, r4⟩ := crash_recover C bs m _ c c1 d held _ _ e j0 hrp hk k
+    rw [hopen] at r1
+    have := Except.ok.inj r1
+    simp only [Prod.mk.injEq] at this
+    obtain ⟨rfl, rfl⟩ := this
+    rcases r4 with r4 | r4
+    · exact ⟨m, held, r4, hm, by rw [r2]; exact hpk, by rw [r3]; exact hfk⟩
+    · refine ⟨_, _, r4, ?_, by rw [r2]; exact hpk, by rw [r3]; exact hfk⟩
+      cases a with
+      | grow n us sig => simp only [lenAfter]; have := hok.1; omega
+      | fetch i => exact hm
+      | hash d0 o0 => exact hm
+
 end HC.ReplicaCrash
